@@ -58,11 +58,39 @@ class Lifecycle:
         self.by_id = {}            # id(asset) -> record
         self.by_asset_id = {}      # asset.id -> record
         self.failed = False
+        self.registrations = []    # (asset, system) in the order the registrations happened
 
     def fail(self, name, msg):
         if not self.failed:
             self.failed = True
             self.sh.violation(name, msg, self.case, engine='lifecycle')
+
+    def name_of(self, asset):
+        """The asset's name as laid down by the constructor call: the name given, or <class>_<id> when None."""
+        rec = self.by_id.get(id(asset))
+        if rec is None or rec.get('asset') is not asset or 'given' not in rec:
+            return asset.name
+        return rec['given'] if rec['given'] is not None else f'{type(asset).__name__}_{asset.id}'
+
+    def hand_over(self, asset, system):
+        """System.add_asset(asset) called by the user for an asset that exists already (built under an older System
+        that never ran, or not registered at all): it is now also registered with the active System."""
+        from simprocesd.model import System
+        rec = self.by_id.get(id(asset))
+        System.add_asset(asset)
+        first = not any(a is asset and s is system for a, s in self.registrations)
+        if first:
+            self.registrations.append((asset, system))
+        if rec is not None and rec.get('asset') is asset:
+            rec['also'] = system
+        n = sum(1 for a in system.find_assets() if a is asset)
+        if n != 1:
+            self.fail('not_registered', f'{type(asset).__name__} {self.name_of(asset)!r} handed to the active System with '
+                      f'System.add_asset() ({"first" if first else "second"} call) is registered {n} times with it')
+        elif system._simulation_is_initialized and asset.env is not system.env:
+            self.fail('late_not_initialised', f'{type(asset).__name__} {self.name_of(asset)!r} handed to the running System '
+                      f'with System.add_asset() was not initialised at once')
+        self.sh.count('assets_handed_to_the_active_system')
 
     def asset_created(self, asset, phase):
         from simprocesd.model import System
@@ -71,7 +99,8 @@ class Lifecycle:
         s = System._instance
         running = bool(s is not None and s._simulation_is_initialized)
         rec = {'asset': asset, 'system': s, 'late': running, 'inits': self.by_id.get(id(asset), {}).get('inits', 0),
-               'cls': type(asset).__name__}
+               'cls': type(asset).__name__, 'given': instrument.LAST_NAME_GIVEN}
+        self.registrations.append((asset, s))
         prev = self.by_id.get(id(asset))
         if prev is not None and prev.get('asset') is asset:
             rec['inits'] = prev['inits']
@@ -114,7 +143,7 @@ class Lifecycle:
     def final(self, systems_simulated):
         for rec in self.created:
             a = rec['asset']
-            want = 1 if rec['system'] in systems_simulated else 0
+            want = 1 if rec['system'] in systems_simulated or rec.get('also') in systems_simulated else 0
             got = self.by_id[id(a)]['inits']
             if got != want:
                 self.fail('initialise_count', f'{rec["cls"]} {a.name}: initialised {got} times, expected {want}')
@@ -122,7 +151,7 @@ class Lifecycle:
             self.sh.count('initialisations_checked')
             for s in {r['system'] for r in self.created}:
                 reg = a in s.find_assets()
-                if reg != (s is rec['system']):
+                if reg != (s is rec['system'] or s is rec.get('also')):
                     self.fail('registry', f'{rec["cls"]} {a.name} registered={reg} with a system that is '
                               f'{"" if s is rec["system"] else "not "}the newest at its creation')
                     return
@@ -522,6 +551,8 @@ def make_assets(rng, tag, n):
         c = rng.choice(['handler', 'processor', 'buffer', 'gate', 'flow', 'batcher', 'maintainer', 'scheduler',
                         'sensor', 'psensor', 'osensor', 'cms', 'group'])
         nm = rng.choice([f'{tag}_{c}{k}', f'{tag}_{c}{k}', 'shared_name', None])
+        if rng.random() < 0.06:
+            nm = ''          # an empty name is a name like any other (it is not "no name given")
         if c == 'handler':
             prev = PartHandler(name=nm, upstream=[prev], cycle_time=0.5)
             a = prev
@@ -567,6 +598,21 @@ def make_assets(rng, tag, n):
             a = prev
         out.append(a)
     out.append(Sink(name=f'{tag}_sink', upstream=[prev]))
+    return out
+
+
+def make_spares(rng, tag):
+    """A small self-contained set of assets (a two-device line, a scheduler, a periodic sensor)."""
+    from simprocesd.model.factory_floor import Source, Sink, ActionScheduler, Maintainer
+    from simprocesd.model.sensors import PeriodicSensor, AttributeProbe
+    src = Source(name=f'{tag}_src', cycle_time=0.5)
+    out = [src, Sink(name=f'{tag}_sink', upstream=[src])]
+    if rng.random() < 0.6:
+        out.append(ActionScheduler([(0.5, 'x'), (0.25, 'y')], name=f'{tag}_sched'))
+    if rng.random() < 0.6:
+        out.append(PeriodicSensor(0.5, [AttributeProbe('name', src)], name=f'{tag}_sensor'))
+    if rng.random() < 0.4:
+        out.append(Maintainer(name=f'{tag}_maintainer'))
     return out
 
 
@@ -620,14 +666,31 @@ def sequence_case(sh, i):
                 sh.count('sequences_with_hundreds_of_assets')
             nsys = rng.choice([1, 2, 2, 3])
             simulated = set()
+            spares = []
             for k in range(1, nsys):
                 if rng.random() < 0.5:
                     # a system that has already run is superseded afterwards
                     systems[-1].simulate(rng.choice([1, 2.5]), print_summary=False)
                     simulated.add(systems[-1])
+                elif rng.random() < 0.6:
+                    # assets built under a System that is replaced before it ever runs; the user hands them to the
+                    # active System later with System.add_asset()
+                    spares.append(make_spares(rng, f'spare{k}'))
                 systems.append(System())
                 mine[k] = make_assets(rng, 'bcd'[k - 1], rng.randint(1, 5))
             newest = systems[-1]
+            handed = []
+
+            def hand_over(group, twice):
+                for a in group:
+                    lc.hand_over(a, newest)
+                    if twice:
+                        lc.hand_over(a, newest)
+                handed.append((group, newest.env.now))
+            hand_when = {n: rng.choice(['before', 'before', 'event', 'between']) for n in range(len(spares))}
+            for n, group in enumerate(spares):
+                if hand_when[n] == 'before':
+                    hand_over(group, rng.random() < 0.3)
             # the kept object of an older System that never ran is copied (or pickled and loaded) while the newest
             # System is active: that must not touch the newest System's registry
             old_unrun = [s_ for s_ in systems[:-1] if s_ not in simulated]
@@ -688,11 +751,23 @@ def sequence_case(sh, i):
                 late.extend(make_assets(rng, 'late', rng.randint(1, 4)))
             create_late.__name__ = 'create_late'
             runs = rng.choice([1, 2, 3])
+            if 'between' in hand_when.values() and runs == 1:
+                runs = 2
             for r in range(runs):
                 if rng.random() < 0.6:
                     newest.env.schedule_event(newest.env.now + rng.choice([0, 0.5, 1.25]), -2, create_late, 6)
+                if r == 0:
+                    for n, group in enumerate(spares):
+                        if hand_when[n] == 'event':
+                            def hand_late(group=group, twice=rng.random() < 0.3):
+                                hand_over(group, twice)
+                            newest.env.schedule_event(rng.choice([0, 0.5, 1.25]), -2, hand_late, 6)
                 newest.simulate(rng.choice([2, 3.5, 5]), print_summary=False)
                 simulated.add(newest)
+                if r == 0:
+                    for n, group in enumerate(spares):
+                        if hand_when[n] == 'between':
+                            hand_over(group, rng.random() < 0.3)
                 if r + 1 < runs and rng.random() < 0.5:
                     if rng.random() < 0.35:
                         failed_creation()
@@ -706,12 +781,23 @@ def sequence_case(sh, i):
                 elif hasattr(a, 'current_state') and a.current_state is None:
                     lc.fail('initialise_count', f'scheduler {a.name} created during the initialisation pass never started')
             # find_assets vs. brute force over the creation log
-            pool = [rec['asset'] for rec in lc.created if rec['system'] is newest]
-            names = sorted({a.name for a in pool})
+            # assets handed to the newest System behave like its own from then on
+            for group, t_hand in handed:
+                sink = group[1]
+                if newest.env.now - t_hand >= 2 and sink.received_parts_count < 1:
+                    lc.fail('handed_over_assets_idle', f'a source -> sink pair handed to the active System with '
+                            f'System.add_asset() at {t_hand!r} has delivered {sink.received_parts_count} parts by '
+                            f'{newest.env.now!r} (source cycle time 0.5)')
+                elif newest.env.now - t_hand >= 2:
+                    sh.count('handed_over_lines_that_worked')
+            pool = [a for a, s_ in lc.registrations if s_ is newest]
+            names = sorted({lc.name_of(a) for a in pool})
             for _ in range(12):
                 q = {}
                 if rng.random() < 0.5:
                     q['name'] = rng.choice(names + ['nope'])
+                    if '' in names and rng.random() < 0.5:
+                        q['name'] = ''
                 if rng.random() < 0.3:
                     # (the number as a user would have it - typed in, parsed from a default name - not the very
                     # int object the asset holds)
@@ -721,13 +807,14 @@ def sequence_case(sh, i):
                 if rng.random() < 0.4:
                     q['subtype'] = rng.choice([PartHandler, PartFlowController, Asset, PartProcessor])
                 got = [a for a in newest.find_assets(**q) if id(a) not in zombies]
-                want = [a for a in pool if ('name' not in q or a.name == q['name'])
+                want = [a for a in pool if ('name' not in q or lc.name_of(a) == q['name'])
                         and ('id_' not in q or a.id == q['id_'])
                         and ('type_' not in q or type(a) is q['type_'])
                         and ('subtype' not in q or isinstance(a, q['subtype']))]
                 if len(got) != len(want) or any(x is not y for x, y in zip(got, want)):
                     lc.fail('find_assets', f'find_assets({ {k: getattr(v, "__name__", v) for k, v in q.items()} }) returned '
-                            f'{[a.name for a in got]}, brute force {[a.name for a in want]}')
+                            f'{[a.name for a in got]}, brute force over the constructor calls (name given, or '
+                            f'<class>_<id> when none was) {[lc.name_of(a) for a in want]}')
                     break
                 sh.count('find_assets_queries')
             # the result of a look-up is the caller's: changing it must not change the registry
